@@ -249,14 +249,15 @@ def work_alphas(arg):
     out = {'ev': 0, 'nt': 0, 'viol': []}
     ref = 2.0 * 30.0 * p / (1 + 30.0 * p) + 1.5 * p          # a reference curve
     a04 = float(numpy.interp(0.4, p, ref)) if p[-1] >= 0.4 else float(ref[len(ref) // 2])
-    load = kfac * ref
     M, rho = 28.0134, 0.8064
     alpha = ref / a04
     s = numpy.sort(alpha)
     lims = [None]
     if len(p) >= 12:
         lims += [((s[2] + s[3]) / 2, (s[-3] + s[-2]) / 2), ((s[len(s) // 3] + s[len(s) // 3 + 1]) / 2, (s[-2] + s[-1]) / 2)]
-    for lim in lims:
+    for lim, offset in [(l, off) for l in lims for off in (0.0, 0.35 * a04, 1.2 * a04)]:
+        # loading = k * ref + offset = (k a04) alpha + offset: a filled-micropore offset shows as the intercept (pore volume)
+        load = kfac * ref + offset
         lc, rc = load.copy(), ref.copy()
         o = core.call(alpha_s_raw, lc, rc, a04, refarea, rho, M, lim)
         out['ev'] += 1
@@ -272,10 +273,14 @@ def work_alphas(arg):
         for r in results:
             out['nt'] += 1
             # loading = k * ref = k * a04 * alpha: slope = k a04, area = refarea / a04 * slope = refarea * k
-            if rel(r['slope'], kfac * a04) > 1e-7 or rel(r['area'], refarea * kfac) > 1e-7 or abs(r['intercept']) > 1e-7 * abs(kfac * a04):
-                out['viol'].append(core.make_violation({'check': 'recovery', 'method': 'alpha-s'},
-                                                       f'alpha-s of a curve against {"itself" if kfac == 1 else f"a copy scaled by {kfac}"} (limits {lim}): slope {r["slope"]}, area {r["area"]}, expected area {refarea * kfac}',
-                                                       {'grid': gkey, 'scale': kfac}, refarea * kfac, r['area']))
+            nscale = abs(kfac * a04) + abs(offset)
+            vol = offset * M / rho / 1000
+            if rel(r['slope'], kfac * a04) > 1e-7 or rel(r['area'], refarea * kfac) > 1e-7 or abs(r['intercept'] - offset) > 1e-7 * nscale \
+                    or abs(r['adsorbed_volume'] - vol) > 1e-7 * nscale * M / rho / 1000:
+                out['viol'].append(core.make_violation({'check': 'recovery', 'method': 'alpha-s', 'limits': 'manual' if lim else 'automatic', 'offset': bool(offset)},
+                                                       f'alpha-s of {"a curve" if not offset else f"a curve + {offset:.4g}"} against {"itself" if kfac == 1 else f"the reference scaled by 1/{kfac}"} (limits {lim}): slope {r["slope"]}, intercept {r["intercept"]}, area {r["area"]}, '
+                                                       f'volume {r["adsorbed_volume"]}; expected slope {kfac * a04}, intercept {offset}, area {refarea * kfac}, volume {vol}',
+                                                       {'grid': gkey, 'scale': kfac}, [refarea * kfac, vol], [r['area'], r['adsorbed_volume']]))
     return out
 
 
@@ -405,6 +410,57 @@ def check_isotherm_entry(ctx):
         nt += 1
         if ra.ok and (not o.ok or len(o.value['results']) != 1 or rel(o.value['results'][0]['area'], ra.value['area'] * k) > 1e-6):
             ctx.violate(core.make_violation({'check': 'isotherm-entry', 'method': 'alpha-s'}, f'alpha_s of a curve against a copy scaled by {k}: {o.value["results"] if o.ok else o.brief()} (expected area {ra.value["area"] * k})', {}))
+    # any cross-sectional area / adsorbate: analyse, change the cross-section, analyse again (same process)
+    nB = bet_n(p, 2.0, 80.0)
+    nL = 3.0 * 25.0 * p / (1 + 25.0 * p)
+    for fname, fn, n_exact, nm, kw in (('area_BET', pgc.area_BET, nB, 2.0, dict(p_limits=(0.03, 0.31))), ('area_langmuir', pgc.area_langmuir, nL, 3.0, dict(p_limits=(0.03, 0.55)))):
+        for how in ('properties edited', 'adsorbate re-registered', 'other adsorbate object of the same name on the isotherm'):
+            probe = pygaps.Adsorbate('c14-probe', cross_sectional_area=0.162, molar_mass=28.0, saturation_pressure=1.0, store=True)
+            try:
+                def mkp():
+                    return pygaps.PointIsotherm(pressure=p, loading=n_exact, material='c14', adsorbate='c14-probe', temperature=T, pressure_mode='relative',
+                                                loading_basis='molar', loading_unit='mmol', material_basis='mass', material_unit='g')
+                first = core.call(fn, mkp(), **kw)
+                if how == 'properties edited':
+                    probe.properties['cross_sectional_area'] = 0.21
+                elif how == 'adsorbate re-registered':
+                    pygaps.ADSORBATE_LIST.remove(probe)
+                    probe = pygaps.Adsorbate('c14-probe', cross_sectional_area=0.21, molar_mass=28.0, saturation_pressure=1.0, store=True)
+                else:
+                    pygaps.ADSORBATE_LIST.remove(probe)
+                    probe = pygaps.Adsorbate('c14-probe', cross_sectional_area=0.21, molar_mass=28.0, saturation_pressure=1.0, store=True)
+                second = core.call(fn, mkp(), **kw)
+                ev += 1
+                nt += 1
+                e1, e2 = nm * 1e-3 * 0.162 * NA * 1e-18, nm * 1e-3 * 0.21 * NA * 1e-18
+                if not first.ok or not second.ok or rel(first.value['area'], e1) > 1e-5 or rel(second.value['area'], e2) > 1e-5:
+                    ctx.violate(core.make_violation(
+                        {'check': 'cross-section-sequence', 'method': fname},
+                        f'{fname} with cross-section 0.162 nm2 gives {first.value["area"] if first.ok else first.brief()} (expected {e1}); after the cross-section became 0.21 nm2 '
+                        f'({how}) it gives {second.value["area"] if second.ok else second.brief()} (expected {e2})', {'how': how}, [e1, e2],
+                        [first.value['area'] if first.ok else None, second.value['area'] if second.ok else None]))
+            finally:
+                if probe in pygaps.ADSORBATE_LIST:
+                    pygaps.ADSORBATE_LIST.remove(probe)
+    # alpha-s through the isotherm entry point with a filled-pore offset: manual and automatic limits agree with the generator
+    for k, off in ((1.0, 0.8), (2.5, 0.3)):
+        iso, ref = mk(k * ref_n + off, reps[0]), mk(ref_n, reps[0])
+        a04 = float(numpy.interp(0.4, p, ref_n))
+        vol = off * c['M'] / c['dl'] / 1000
+        for lim in ((0.4, 1.2), None):
+            o = core.call(pgc.alpha_s, iso, ref, reference_area='BET', t_limits=lim)
+            ev += 1
+            if not o.ok or not o.value['results']:
+                if lim is not None:
+                    ctx.violate(core.make_violation({'check': 'isotherm-entry', 'method': 'alpha-s', 'what': 'no result'}, f'alpha_s with limits {lim}: {o.brief() if not o.ok else "no result"}', {}))
+                continue
+            nt += 1
+            for r in o.value['results']:
+                full = lim is not None or (len(r['section']) >= 0.8 * len(p))
+                if full and (rel(r['slope'], k * a04) > 1e-6 or abs(r['intercept'] - off) > 1e-6 * (k * a04 + off) or abs(r['adsorbed_volume'] - vol) > 1e-5 * vol):
+                    ctx.violate(core.make_violation({'check': 'isotherm-entry', 'method': 'alpha-s', 'limits': 'manual' if lim else 'automatic'},
+                                                    f'alpha_s of reference*{k} + {off} (limits {lim}): slope {r["slope"]} intercept {r["intercept"]} volume {r["adsorbed_volume"]}; '
+                                                    f'expected slope {k * a04}, intercept {off}, pore volume {vol}', {}, [k * a04, off, vol], [r['slope'], r['intercept'], r['adsorbed_volume']]))
     ctx.add('isotherm_entry_points', ev, nt)
 
 
